@@ -503,3 +503,34 @@ pub fn forge_missing_quotient_cap<C: GenericConfig<D, F = F>, const COLS: usize,
         StarkProofWithPublicInputs { proof: StarkProof { trace_cap, auxiliary_polys_cap: None, quotient_polys_cap: None, openings, opening_proof }, public_inputs }
     })
 }
+
+/// Byzantine STARK prover, strategy "stale auxiliary columns": the auxiliary (lookup helper)
+/// columns are computed from one trace while the commitment (and therefore every opening and the
+/// quotient) is that of another — through the public `prove_with_commitment`.
+pub fn stark_prove_mismatch<C: GenericConfig<D, F = F>, const COLS: usize, const PIS: usize>(
+    def: &Def,
+    cfg: &StarkConfig,
+    rows_for_aux: &[Vec<u64>],
+    rows_committed: &[Vec<u64>],
+    pis: &[u64],
+) -> Result<StarkProofWithPublicInputs<F, C, D>, String> {
+    use plonky2::fri::oracle::PolynomialBatch;
+    use plonky2::iop::challenger::Challenger;
+    use starky::prover::prove_with_commitment;
+    let r = guarded(|| {
+        let stark = SimStark::<COLS, PIS>::new(def.clone());
+        let pv = felts(pis);
+        let committed = rows_to_polys(rows_committed, COLS);
+        let commitment = PolynomialBatch::<F, C, D>::from_values(committed, cfg.fri_config.rate_bits, false, cfg.fri_config.cap_height, &mut TimingTree::default(), None);
+        let mut challenger = Challenger::<F, C::Hasher>::new();
+        challenger.observe_elements(&pv);
+        cfg.observe(&mut challenger);
+        challenger.observe_cap(&commitment.merkle_tree.cap);
+        prove_with_commitment(&stark, cfg, &rows_to_polys(rows_for_aux, COLS), &commitment, None, None, &mut challenger, &pv, None, None, &mut TimingTree::default())
+    });
+    match r {
+        Ok(Ok(p)) => Ok(p),
+        Ok(Err(e)) => Err(format!("Err: {e}")),
+        Err(e) => Err(format!("panic: {e}")),
+    }
+}
